@@ -277,6 +277,19 @@ def r4(ctx, facts, cfg):
         others = [n for n in f.assignments_to_var(gv) if n not in sets_true]
         ok = ok and not others
         why = "zero-interval tests: %d, assignments of true: %d" % (len(br), len(sets_true))
+    # ... and the flush call sits on the 'guard is true' outcome of its test, reached on every path of an iteration from there
+    if len(guards) == 1:
+        gt = []
+        for bid, b in g.blocks.items():
+            cond = g.term_cond(bid)
+            if cond is None:
+                continue
+            core, neg = core_and_neg(cond)
+            if var_ref(core) == gv:
+                gt.append((bid, "F" if neg else "T"))
+        lp = npos(f, flush_calls)
+        ok = ok and bool(gt) and not g.exists_path([g.entry_node], lp, avoid_edges=gt) and \
+            all(g.exists_path([y for (y, lab) in g.succ.get(tnode(g, b), ()) if lab == l], lp) for (b, l) in gt)
     ctx.ob("C06.R4a", "_flush_and_run_active_sinks:zero-interval-forces-flush", ok,
            "with a zero minimum interval the sinks are flushed on every path (%s)" % why, fn=f)
     for c in flush_calls:
@@ -311,10 +324,36 @@ def r4(ctx, facts, cfg):
         not [x for x in walk(loops[0].get("body")) if x["k"] in ("BreakStmt", "ReturnStmt", "GotoStmt", "ContinueStmt") and
              not any(a["k"] == "LambdaExpr" for a in l.ancestors(x) if in_subtree(a, loops[0]))]
     valid_br = branches_on_call(l, r"::is_valid_logger$")
-    ok = never_early and in_loop and bool(valid_br)
+    pbp = npos(l, pb)
+    # polarity: collected on 'logger is valid' and on 'not yet in the cache'; the membership test compares for equality
+    absent = []
+    for b2, blk in lg.blocks.items():
+        c = lg.term_cond(b2)
+        if c is None:
+            continue
+        core, neg = core_and_neg(c)
+        cs_ = strip(core, casts=True)
+        if isnode(cs_) and is_call(cs_, r"operator(==|!=)") and any(is_call(x, r"(::c?end$|^std::c?end)") for x in walk(cs_)):
+            lab = "T" if "operator==" in cs_["callee"] else "F"   # label of 'not found'
+            absent.append((b2, other(lab) if neg else lab))
+    inner = [x for x in facts.fns if x.config == cfg and x.rec.get("parent") == l.name]
+    eq_ok = bool(inner) and all(any(isnode(strip(x.g.node_ast(r).get("val"), casts=True)) and strip(x.g.node_ast(r).get("val"), casts=True).get("k") == "BinaryOperator" and
+                                    strip(x.g.node_ast(r).get("val"), casts=True).get("op") == "==" for r in x.g.return_nodes()) for x in inner)
+    pol = bool(valid_br) and bool(absent) and not lg.exists_path([lg.entry_node], pbp, avoid_edges=[(b, t) for (b, t, c) in valid_br]) and \
+        not lg.exists_path([lg.entry_node], pbp, avoid_edges=absent) and eq_ok
+    ok = never_early and in_loop and bool(valid_br) and pol
     ctx.ob("C06.R4c", "_flush_and_run_active_sinks:collects-all-sinks", ok,
            "the active-sink cache receives every sink of every valid logger: the collector walks all sinks of a logger and returns "
-           "false (never ends for_each_logger early) — never early: %s, loop over logger->sinks: %s" % (never_early, in_loop), fn=l)
+           "false (never ends for_each_logger early) — never early: %s, loop over logger->sinks: %s; a sink is added on the outcomes "
+           "'logger is valid' and 'not yet in the cache', membership decided by pointer equality: %s" % (never_early, in_loop, pol), fn=l)
+    # R4f: the cache is scratch for one call: it is emptied after the sinks were visited, on every path (it holds raw pointers; a sink
+    # destroyed after its last logger was removed must not be flushed through a pointer left over from an earlier call)
+    clr = npos(f, [c for c in f.calls(r"std::vector<quill::Sink \*.*>::clear$") if is_this_field(call_obj(c), "_active_sinks_cache")])
+    lp = npos(f, flush_calls)
+    ok = bool(clr) and not g.exists_path([g.entry_node], [g.exit_node], avoid_nodes=clr) and not g.exists_path(clr, lp)
+    ctx.ob("C06.R4f", "_flush_and_run_active_sinks:cache-emptied", ok,
+           "the active-sink cache is cleared after the loop on every path, so each call flushes exactly the sinks of the loggers that "
+           "are valid now", fn=f)
     # for_each_logger itself: stops only when the callback returns true
     fe = facts.need("quill::detail::LoggerManager::for_each_logger", cfg)
     for x in fe:
